@@ -417,7 +417,7 @@ def run_case(case):
                             reg.pop(h, None)
                         agent(1, ('drop', 'back3'))
                         call(0, 'holder', 'clear', [])
-                        call(0, 'hl', 'clear', [])
+                        call(0, 'hl', 'pop', [])
                 elif kind == 'one-typeid-two-classes':
                     # a typeid registered with a factory: two hosted objects of different classes (different methods) behind the same typeid,
                     # met by the harness process in one order and by the agent in the other
